@@ -38,7 +38,8 @@ ForestPaths == { << >> } \cup { <<a>> : a \in DirNames } \cup { <<"d", b>> : b \
 Forest == UNION { { F(p, "a.templ", "good", 1), F(p, "a_templ.go", "junk", 0), F(p, "b_templ.go", "junk", 2), F(p, "n.txt", "text", 1) } : p \in ForestPaths }
 \* one directory at a time, with a failing file in the root
 PerDir == { { F(p, "a.templ", "good", 1), F(p, "b_templ.go", "junk", 2), F(R, "b.templ", "unparsable", 1) } : p \in DirPaths }
-TreesSkip == { Forest } \cup PerDir
+TreesSkip == PerDir
+TreesForest == { Forest }
 
 \* a tree that makes every negative configuration fail: two files generated concurrently, one failing file
 TreesNeg == { { F(R, "a.templ", "good", 1), F(R, "b.templ", "good", 1), F(<<"d">>, "a.templ", "badgo", 1) } }
@@ -55,5 +56,5 @@ OptsFour == <<
     { F(R, "o.go", "src", 1) } >>
 TreesFour == { t \in PickB(OptsFour, Len(OptsFour)) : Cardinality(t) = 4 }
 \* emission
-TreesGen == TreesProto \cup TreesSkip \cup TreesFocus
+TreesGen == TreesProto \cup TreesSkip \cup TreesForest \cup TreesFocus
 =============================================================================
